@@ -250,6 +250,17 @@ def gen_c03(tier, seed):
                 d["ishape"] = rng.choice(["z", "s"])
             out.append(line(d))
             idx += 1
+    # a max_time that is set but never reached (with and without skip_ext_time): the counts must still be exact
+    for _ in range(40 if tier == "quick" else 1500):
+        T = rng.choice([1, 2, 2, 3, 4, 8])
+        s_ = rng.choice([1, 2, 3])
+        per = rng.choice([2, 3, 5, 9])
+        d = {"id": idx, "entry": rng.choice([0, 0, 2, 4]), "T": T, "s": s_, "n": T * per - rng.randrange(T), "cbase": 1000, "freq": 10 ** 9, "seed": rng.randrange(1 << 20),
+             "fplog": 0, "oshape": rng.choice(["z", "s"]), "skip": rng.choice([1, 1, 0, -1]), "max": int(per * (s_ * 1000 + 10) * rng.choice([1.5, 1.9, 3]))}
+        if d["entry"] >= 2:
+            d["ishape"] = rng.choice(["z", "s", "sd"])
+        out.append(line(d))
+        idx += 1
     # test mode and zero budgets
     for _ in range(60 if tier == "quick" else 3000):
         entry = rng.randrange(6)
